@@ -32,5 +32,11 @@ run mutants/q5.patch C06 detect
 run mutants/q4.patch C06 quiet
 run mutants/q6.patch C06 quiet
 run mutants/eq-atomic-counters.patch C04 quiet
+run mutants/eq-registry-rwmutex-doublecheck.patch C19 quiet
+run mutants/eq-queue-lock-discipline.patch C04 quiet
+run mutants/eq-queue-lock-discipline.patch C05 quiet
+run mutants/eq-queue-lock-discipline.patch C06 quiet
+run mutants/eq-parser-bigger-buffers.patch C11 quiet
+run mutants/eq-parser-bigger-buffers.patch C12 quiet
 echo "seeds: pass=$pass fail=$fail"
 [ $fail = 0 ]
